@@ -168,6 +168,8 @@ struct Cutter {
     graceful: bool,
     /// the served stream is reset / stopped (stream-level error) before the connection is closed
     reset: bool,
+    /// how long a silent outage lasts
+    blackhole_ms: u64,
 }
 
 impl Cutter {
@@ -198,7 +200,7 @@ impl Cutter {
             Some(r) => {
                 // silence in both directions for longer than the idle time-out (1.5 s), then the path is back
                 r.set_blackhole(true);
-                tokio::time::sleep(Duration::from_millis(2600)).await;
+                tokio::time::sleep(Duration::from_millis(self.blackhole_ms)).await;
                 r.set_blackhole(false);
                 // whatever the fake server still holds is dead too
                 fake.cut();
@@ -220,6 +222,8 @@ struct Params {
     outage: String,
     /// how scripted failing attempts fail (see `Outage::how`)
     how: String,
+    /// the client is built with backoff_strategy() before keep_alive() (the setters must commute)
+    backoff_first: bool,
     /// publisher: two 5 KiB items are fed (not flushed) right before every cut, so that the loss
     /// surfaces in poll_ready (the framed writer flushes there once 8 KiB are buffered)
     queued: bool,
@@ -228,13 +232,18 @@ struct Params {
 async fn cell(set: Arc<CertSet>, p: Params) -> Result<String, Fail> {
     let class = format!("{}", p.kind);
     let setup = |what: &str, e: String| fail("setup", what, format!("{what}: {e}"));
-    let silent = p.outage == "timeout";
+    let silent = p.outage == "timeout" || p.outage == "timeout-long";
     let mut fake = if silent { FakeServer::start_with_idle(&set, Some(Duration::from_millis(1500))) } else { FakeServer::start(&set) }.map_err(|e| setup("fake server", e.to_string()))?;
     let relay = if silent { Some(net::Relay::start(fake.addr).await.map_err(|e| setup("relay", e.to_string()))?) } else { None };
     let target = relay.as_ref().map(|r| r.addr).unwrap_or(fake.addr);
     // with a silent outage the connection must be kept alive by pings more often than the idle time-out
-    let client = net::client_ka(target, &set.ca, &set.client, backoff(&p.backoff, p.max), if silent { 300 } else { 5_000 }).await.map_err(|e| setup("client connect", e.to_string()))?;
-    let cutter = Cutter { relay, graceful: p.outage == "graceful", reset: p.outage == "reset" };
+    let client = if p.backoff_first {
+        net::client_ka_backoff_first(target, &set.ca, &set.client, backoff(&p.backoff, p.max), if silent { 300 } else { 5_000 }).await
+    } else {
+        net::client_ka(target, &set.ca, &set.client, backoff(&p.backoff, p.max), if silent { 300 } else { 5_000 }).await
+    }
+    .map_err(|e| setup("client connect", e.to_string()))?;
+    let cutter = Cutter { relay, graceful: p.outage == "graceful", reset: p.outage == "reset", blackhole_ms: if p.outage == "timeout-long" { 6000 } else { 2600 } };
     let topic = "/c12ns/topic";
     let code = if p.fatal { INVALID_TOPIC_NAME } else { REPLIER_ALREADY_BOUND };
     let r = match p.kind.as_str() {
@@ -266,7 +275,8 @@ fn judge(served: &Served, p: &Params, j: usize, class: &str) -> Result<(), Fail>
     match served {
         Served::Mismatch(m) => Err(fail(if m.contains("backoff") { "backoff-not-honoured" } else { "re-registration-differs" }, class, m.clone())),
         Served::Recovered(_, a) | Served::GaveUp(a) => {
-            if *a != expect_attempts {
+            let long_ok = p.outage == "timeout-long" && *a >= 1 && *a <= p.max;
+            if *a != expect_attempts && !long_ok {
                 Err(fail(
                     "attempt-budget",
                     class,
@@ -748,6 +758,19 @@ fn cells(tier: &str) -> Vec<Value> {
                         }
                     }
                 }
+                // the client built with its setters in the other order: the configured budget still applies
+                if pre == 0 && max == 2 {
+                    for fv in [vec![max], vec![1u32]] {
+                        v.push(json!({"cell": id, "kind": kind, "items_before": pre, "outages": 1, "failing_attempts_per_outage": fv, "failure": "retryable", "backoff": "constant", "max_attempts": max, "builder_order": "backoff-first"}));
+                        id += 1;
+                    }
+                }
+                // a silent outage long enough for the first dial of the recovery to go unanswered for
+                // more than 5 s (it completes when the path is back, or times out and is followed by another)
+                if pre == 0 && max == 2 && (thorough || kind == "subscriber" || kind == "publisher") {
+                    v.push(json!({"cell": id, "kind": kind, "items_before": 1, "outages": 1, "failing_attempts_per_outage": [0], "failure": "retryable", "backoff": "constant", "max_attempts": 3, "outage": "timeout-long"}));
+                    id += 1;
+                }
                 // the served stream is reset (a stream-level error reaches the client first), then the
                 // connection is closed
                 if pre <= 1 && max >= 2 {
@@ -822,6 +845,7 @@ pub async fn run(tier: &str, replaying: bool) -> ! {
                 outage: c["outage"].as_str().unwrap_or("close").to_string(),
                 how: c["attempt_failure"].as_str().unwrap_or("error-frame").to_string(),
                 queued: c["queued_unflushed"].as_bool().unwrap_or(false),
+                backoff_first: c["builder_order"].as_str() == Some("backoff-first"),
             };
             let nontrivial = p.outages >= 2 || p.fails.iter().any(|f| *f >= 1);
             // in a task of its own: a panic inside the client library is a verdict about the cell,
@@ -842,7 +866,7 @@ pub async fn run(tier: &str, replaying: bool) -> ! {
     finish(
         rep,
         outs,
-        "every cell of: stream kind {publisher, subscriber, requestor, replier} x items exchanged before the first cut {0,1(,2)} x number of successive outages 1..=max+2 x failing re-registration attempts per outage 0..=max x backoff {constant, linear, exponential(2)} (all three in thorough, rotating in quick) with step 5 ms x max attempts {1,2(,3)}, plus (thorough) every non-uniform vector of survivable failure counts over up to three outages, plus cells whose failing attempts fail because the fake server cuts the connection again while the client waits for the answer to its re-registration (instead of answering with an error frame), plus the requestor flow driven through a clone of the opened handle (same budget and delays expected), plus outages that start with a reset of the served stream (the client sees a stream-level error before the connection-level one), plus graceful outages (the fake server finishes the served stream cleanly, so the client sees the end of the stream rather than a read error, and then closes the connection), plus repliers whose re-registration is acknowledged and then refused with replier-already-bound and closed (what the real server does while the old binding exists; every acknowledged attempt ends one outage, so the replier must keep re-registering until served), plus publishers with 10 KiB fed but not flushed at the moment of the cut (the loss then surfaces in poll_ready), plus one unrecoverable-answer cell per (kind, max, items), plus silent outages (a UDP relay drops every packet for 2.6 s against a 1.5 s idle time-out, so the connection ends by time-out instead of by a close frame) per (kind, max), plus two clones of one requestor recovering one after the other with a request of the first in flight. Oracle per outage: the re-registration frame equals the original; the fake server counts exactly fails+1 attempts (max when all fail, 1 when unrecoverable) regardless of earlier outages; with fails<max the stream works again (published item reaches the fake server / pushed item is yielded / retried and fresh requests are answered / a request sent to the replier is replied to); with fails==max too-many-retries is reported on the operation that hit the outage or on the next one; an unrecoverable answer is reported immediately. non-trivial = at least two outages or at least one failing attempt",
+        "every cell of: stream kind {publisher, subscriber, requestor, replier} x items exchanged before the first cut {0,1(,2)} x number of successive outages 1..=max+2 x failing re-registration attempts per outage 0..=max x backoff {constant, linear, exponential(2)} (all three in thorough, rotating in quick) with step 5 ms x max attempts {1,2(,3)}, plus (thorough) every non-uniform vector of survivable failure counts over up to three outages, plus cells whose failing attempts fail because the fake server cuts the connection again while the client waits for the answer to its re-registration (instead of answering with an error frame), plus clients built with backoff_strategy() before keep_alive() (the configured budget must still apply), plus a silent outage of 6 s (the first dial of the recovery stays unanswered for more than 5 s; any number of attempts within the budget is accepted, the stream must work again), plus the requestor flow driven through a clone of the opened handle (same budget and delays expected), plus outages that start with a reset of the served stream (the client sees a stream-level error before the connection-level one), plus graceful outages (the fake server finishes the served stream cleanly, so the client sees the end of the stream rather than a read error, and then closes the connection), plus repliers whose re-registration is acknowledged and then refused with replier-already-bound and closed (what the real server does while the old binding exists; every acknowledged attempt ends one outage, so the replier must keep re-registering until served), plus publishers with 10 KiB fed but not flushed at the moment of the cut (the loss then surfaces in poll_ready), plus one unrecoverable-answer cell per (kind, max, items), plus silent outages (a UDP relay drops every packet for 2.6 s against a 1.5 s idle time-out, so the connection ends by time-out instead of by a close frame) per (kind, max), plus two clones of one requestor recovering one after the other with a request of the first in flight. Oracle per outage: the re-registration frame equals the original; the fake server counts exactly fails+1 attempts (max when all fail, 1 when unrecoverable) regardless of earlier outages; with fails<max the stream works again (published item reaches the fake server / pushed item is yielded / retried and fresh requests are answered / a request sent to the replier is replied to); with fails==max too-many-retries is reported on the operation that hit the outage or on the next one; an unrecoverable answer is reported immediately. non-trivial = at least two outages or at least one failing attempt",
         "fault sequences are enumerated exhaustively; scheduling inside tokio/quinn is not controlled",
         json!({"step_ms": STEP_MS}),
         replaying,
